@@ -16,7 +16,7 @@ from vf import gen, harness, refdec, synth, treecheck
 ID = "C17"
 LEVEL = "exploration"
 RULE = ("one instant per case (years 2014..2049; boundary days 1/59/60/61/365/366; first and last millisecond of a day; random), "
-        "written simultaneously into every line of 2 images (ms stamp and, level 1.1, us-of-day stamp), every attitude point, the "
+        "written simultaneously into every line of an image (ms stamp and, level 1.1, us-of-day stamp; a second image carries four lines straddling the following midnight / year end), every attitude point, the "
         "platform-position first point (date text + decimal seconds), the scene-centre time and the volume creation time; "
         "every time leaf of the tree is compared with the instant decoded from the bytes and the leaves given the same "
         "instant must agree with each other; thorough adds every day of 2016, 2019 and 2020. evaluations = time leaves "
@@ -65,6 +65,18 @@ def run_case(i, tier, seed):
             p["sensor_acquisition_date"] = [inst["year"], inst["doy"], inst["ms"]]
             if typ == "C*8":
                 p["sensor_acquisition_date_microseconds"] = inst["ms"] * 1000 + inst["us"]
+        if k == 1:
+            # the second image is acquired across midnight (and across the year end when the day is the last one):
+            # every line carries its own day, so a date remembered from another line shows
+            nd = 366 if calendar.isleap(inst["year"]) else 365
+            nxt = (inst["year"], inst["doy"] + 1) if inst["doy"] < nd else (inst["year"] + 1, 1)
+            stamps = [(inst["year"], inst["doy"], 86399998), (inst["year"], inst["doy"], 86399999), (*nxt, 0), (*nxt, 1)]
+            im2 = gen.minimal_image(np.random.default_rng([seed, i, k]), typ, 4, 2, "index", inst)
+            for p, (y, d, ms) in zip(im2["prefix"], stamps):
+                p["sensor_acquisition_date"] = [y, d, ms]
+                if typ == "C*8":
+                    p["sensor_acquisition_date_microseconds"] = ms * 1000 + inst["us"]
+            im = im2
         files[n] = synth.image_bytes(im)
     led = gen.minimal_leader(n_att=3, att_len=16 + 120 * 3, inst=inst)
     led["ds"]["scene_center_time"] = tx["scene_center_time_us"] if inst["us"] else rng.choice([tx["scene_center_time_ms"], tx["scene_center_time_us"]])
@@ -94,12 +106,13 @@ def run_case(i, tier, seed):
             treecheck.check_root(tree, files[names["vol"]], p1)
             time_leaf = re.compile(r"(#time|#sensor_acquisition_date|@datetime_of_first_point|@scene_center_time|@creation_datetime)")
             problems = [p for p in p1 if time_leaf.search(p)]
-            n = 2 * 3 * (2 if typ == "C*8" else 1) + 2 * 3 + 3
+            n = 7 * (2 if typ == "C*8" else 1) + 2 * 3 + 3
             # relational: leaves that were given the same instant at ms resolution must read back as the same datetime
             reads = {}
-            for nme in names["imgs"]:
+            for nme in names["imgs"][:1]:  # the second image carries the midnight-crossing stamps instead
                 g = tree[f"imagery/{harness.group_name(nme)}"]
-                reads[f"image {harness.group_name(nme)} ms stamp"] = g["sensor_acquisition_date"].values[0]
+                for ln in (0, 2):
+                    reads[f"image {harness.group_name(nme)} line {ln} ms stamp"] = g["sensor_acquisition_date"].values[ln]
             reads["attitude point"] = tree["metadata/attitude/attitude"]["time"].values[0]
             if inst["us"] == 0:
                 reads["platform-position first point"] = np.datetime64(tree["metadata/platform_position"].attrs["datetime_of_first_point"], "ns")
